@@ -50,15 +50,17 @@ theorem C06_sub_narrowed (fs : List MFunc) (inputs : List (String × Val)) (ui :
     exact ⟨fun h => ⟨h, C06_run_validated sub inputs ui fixed old r h⟩, fun h => h.1⟩
 
 /-- **Requests the narrowed pipeline refuses are rejected** — an axis that only the dropped branch knows, an integer out of
-    range for an input of the sub-map, an axis reduced inside the sub-map (`C06_reject` applied to `sub`) — whatever the run
-    folder holds, before any function runs. -/
+    range for an input of the sub-map, an axis reduced inside the sub-map, an axis no function of the sub-map maps over
+    (round 3: only ever internal there) (`C06_reject` applied to `sub`) — whatever the run folder holds, before any function
+    runs. -/
 theorem C06_sub_reject (fs : List MFunc) (inputs : List (String × Val)) (ui : List (String × List Nat)) (S : Option (List String))
     (auto : Bool) (fx : List (String × Sel)) (old : List (String × Slot)) (sub : List MFunc)
     (hp : Sub.prepare fs inputs S auto = .ok sub)
     (hbad : ¬ ((∀ pa ∈ mapspecAxes sub, ∀ v sh, alookup inputs pa.1 = some v → shapeOf v = some sh →
                   ∀ sd ∈ List.zip (pa.2.map (axisSel fx)) sh, ∃ r, selIndices sd.2 sd.1 = .ok r) ∧
                (∀ kv ∈ fx, kv.1 ∈ knownAxes (mapspecAxes sub)) ∧
-               (∀ kv ∈ fx, kv.1 ∉ reducedAxes sub (mapspecAxes sub)))) :
+               (∀ kv ∈ fx, kv.1 ∉ reducedAxes sub (mapspecAxes sub)) ∧
+               (∀ kv ∈ fx, kv.1 ∈ mappedAxes sub))) :
     ∃ e, runPartSub fs inputs ui S auto (some fx) old = .error e := by
   unfold runPartSub
   rw [hp]
@@ -109,17 +111,9 @@ theorem C06_sub_witness_reduced_elsewhere :
     validateFixed [fY, fT] xIn (some [("i", .slice (some 2) none none)]) =
       .error (.value "axis is reduced and cannot be in fixed_indices") := by decide
 
-private def fK : MFunc := { name := "f", params := [("x", "x")], outputs := ["y"], mapspec := some { inputs := [⟨"x", [some "i"]⟩], outputs := [⟨"y", [some "i", some "k"]⟩] }, ret := some [2], internal := some [2], defaults := [], bound := [] }
-
-/-- **Observation (defect candidate, see REPORT): an index on an axis that is only ever INTERNAL is ignored.**
-    `x[i] -> y[i, k]` with `internal_shape=(2,)`, three inputs, nothing downstream: `{"k": 99}` passes `_validate_fixed_indices`
-    (`k` is a known axis, no input carries it, nothing reduces it) and `_mask_fixed_axes` looks at external axes only, so the
-    selection is everything — the out-of-range integer is never rejected and `{"k": 1}` does not restrict the run.  (When a
-    downstream function maps over `k`, NumPy rejects the index there: `C06_reject_late`.) -/
-theorem C06_internal_axis_index_ignored_witness :
-    validateFixed [fK] [("x", .arr [3] [.int 0, .int 1, .int 2])] (some [("k", .idx 99)]) = .ok () ∧
-    fixedMask (some [("k", .idx 99)]) { inputs := [⟨"x", [some "i"]⟩], outputs := [⟨"y", [some "i", some "k"]⟩] } [3, 2] [true, false] =
-      .ok (some [true, true, true]) := by decide
+/- round 3: the observation `C06_internal_axis_index_ignored_witness` that stood here (an index on an axis that is only ever
+   internal passed the validation and was ignored) was a genuine defect of pipefunc; it is repaired (DF-C06-internal-axis) and
+   replaced by `C06_internal_only_axis_refused` / `C06_internal_axis_refused_witness` in Props/C06Internal.lean. -/
 
 /-! ### non-vacuity -/
 
